@@ -310,9 +310,20 @@ def case_frames(ctx, job, idx, rng, st):
     ctx.count("frame:moving" if moving else "frame:static")
     ctx.count("frame:parent-" + ("mixed" if mixed else "same"))
     if moving:
-        propagator = rng.choice(["Kepler", "Kepler", "Kepler", "J2"])
+        propagator = rng.choice(["Kepler", "Kepler", "Kepler", "J2", "KeplerNum"])
         ctx.count("frame:propagator-" + propagator)
-        ref = Orbit(state, epoch, "cartesian", ref_frame_name, propagator)
+        if propagator == "KeplerNum":
+            # a numerical propagator works (and answers) in its own frame, EME2000 by default, whatever the frame of the orbit
+            from beyond.dates import timedelta as _td
+            from beyond.env.solarsystem import get_body
+            from beyond.propagators.keplernum import KeplerNum
+
+            ref = Orbit(state, epoch, "cartesian", ref_frame_name, KeplerNum(_td(seconds=120), get_body("Earth")))
+            descr["propagator"] = "KeplerNum(120 s, Earth), output frame EME2000"
+            if ref_frame_name != "EME2000":
+                ctx.count("frame:propagator-answers-in-another-frame")
+        else:
+            ref = Orbit(state, epoch, "cartesian", ref_frame_name, propagator)
     else:
         ref = StateVector(state, epoch, "cartesian", ref_frame_name)
     mech = ""
@@ -344,7 +355,7 @@ def case_frames(ctx, job, idx, rng, st):
             w = dict(w0, dt_us=us)
             try:
                 if moving:
-                    ref_d = ref.propagate(d).copy(form="cartesian")
+                    ref_d = ref.propagate(d).copy(form="cartesian", frame=ref_frame_name)
                 else:
                     ref_d = StateVector(probe.arr(ref.copy(form="cartesian")), d, "cartesian", ref_frame_name)
                 ref_par = probe.arr(ref_d.copy(frame=parent))  # reference point in the parent frame (library, C02)
